@@ -17,6 +17,7 @@ const (
 	sigLookahead = 4
 	sigPartition = 5
 	sigInput     = 6
+	sigFinal     = 7
 )
 
 func computeRuleClasses(t *Tables, g *Grammar) []int {
@@ -106,6 +107,11 @@ func partitionStatesByAction(t *Tables, ruleClass []int, numStates int) ([]int, 
 	// Create the initial partitions
 	for i := 0; i < numStates; i++ {
 		sig := stateSignature(i)
+		if slices.Contains(t.FinalStates, i) {
+			// The parser stops as soon as it enters a final state, whatever its action is, so a final
+			// state can only be merged with other final states.
+			sig = append([]int{sigFinal}, sig...)
+		}
 		partition[i] = partitions.Insert(sig)
 	}
 	return partition, partitions
